@@ -31,6 +31,60 @@ from typing import Dict, List, Optional, Set, Tuple
 KNOWN_FILE = os.path.join(os.path.dirname(os.path.dirname(os.path.abspath(__file__))), "known_functions.json")
 
 
+class _Line(float):
+    """Line number of an inlined node: orders strictly between the statement before the call and the statement holding
+    the call (rules compare line numbers for order) and prints as the call's line."""
+
+    def __new__(cls, value: float, shown: int):
+        o = super().__new__(cls, value)
+        o.shown = shown
+        return o
+
+    def __str__(self):
+        return str(self.shown)
+
+    __repr__ = __str__
+
+    def __format__(self, spec):
+        return format(self.shown, spec)
+
+
+def _renumber(stmts, host_line, shown: int) -> None:
+    """Give the inlined statements increasing line numbers in (host_line - 1, host_line)."""
+    order = []
+
+    def pre(block):
+        for st in block:
+            order.append(st)
+            for fld in ("body", "handlers", "orelse", "finalbody"):
+                sub = getattr(st, fld, None)
+                if isinstance(sub, list) and sub and isinstance(sub[0], (ast.stmt, ast.excepthandler)):
+                    pre(sub)
+
+    pre(stmts)
+    n_ = len(order) + 1
+    lo = float(host_line) - 1.0
+    for k, st in enumerate(order):
+        ln = _Line(lo + (k + 1) / (n_ + 1), shown)
+        for sub in ast.walk(st):
+            if hasattr(sub, "lineno") and not (isinstance(sub, (ast.stmt, ast.excepthandler)) and sub is not st):
+                pass
+        st.lineno = ln
+    # expressions take the line of their statement
+    for st in order:
+        for ch in ast.iter_child_nodes(st):
+            _set_expr_lines(ch, st.lineno)
+
+
+def _set_expr_lines(node, ln) -> None:
+    if isinstance(node, (ast.stmt, ast.excepthandler)):
+        return
+    if hasattr(node, "lineno") or isinstance(node, ast.expr):
+        node.lineno = ln
+    for ch in ast.iter_child_nodes(node):
+        _set_expr_lines(ch, ln)
+
+
 def clone(node):
     """Deep copy of an AST without following the `_parent` back-pointers set by the program model."""
     if isinstance(node, ast.AST):
@@ -280,6 +334,9 @@ class Inliner:
             for fld, root in roots:
                 new_root = self._rewrite_expr(fi, root, hoisted, top=True)
                 setattr(st, fld, new_root)
+            if hoisted:
+                host = st.lineno
+                _renumber(hoisted, host, int(host) if not isinstance(host, _Line) else host.shown)
             # an expression statement whose value was a helper without return value
             if isinstance(st, ast.Expr) and isinstance(st.value, ast.Constant) and st.value.value is None and hoisted:
                 out.extend(hoisted)
